@@ -2,6 +2,7 @@
 #pragma once
 #include <algorithm>
 #include <cstdint>
+#include <limits>
 #include <random>
 #include <vector>
 
@@ -45,7 +46,24 @@ struct GenOpts {
   double utilLo = 0.05, utilHi = 1.3;
   bool globalDomain = false;  // C06 domain: rows >= 4 row-heights wide, >= 1 movable cell of positive area
   bool singleRowOnly = false;
+  bool zeroAreaMovable = false;  // C06: movable cells of zero area are allowed next to >= 1 cell of positive area
 };
+
+// C06 domain, made precise (DESIGN.md section 7): at least one free row segment is wider than twice the side margin
+// (margin = sideMargin x smallest positive cell height), otherwise the density grid is empty.
+inline bool inGlobalDomain(const Circuit &c, double sideMargin) {
+  int minH = std::numeric_limits<int>::max();
+  bool positive = false;
+  for (int i = 0; i < c.nbCells(); ++i) {
+    if (c.cellHeight_[i] > 0) minH = std::min(minH, c.cellHeight_[i]);
+    if (!c.cellIsFixed_[i] && c.area(i) > 0) positive = true;
+  }
+  if (!positive || minH == std::numeric_limits<int>::max()) return false;
+  long long margin = (long long)(sideMargin * minH);
+  for (const Row &r : c.computeRows())
+    if (r.width() > 2 * margin + minH) return true;
+  return false;
+}
 
 struct GenInfo {
   int rowHeight = 1;
@@ -187,6 +205,12 @@ inline Circuit genCircuit(Rng &r, const GenOpts &o, GenInfo *info = nullptr) {
     } else {
       w[i] = pw;
       h[i] = ph;
+    }
+    if (o.zeroAreaMovable && i > 0 && r.chance(0.12)) {
+      // zero-area movable cell (a pin-only or placeholder cell)
+      if (r.chance(0.5)) w[i] = 0;
+      else h[i] = 0;
+      pol[i] = CellRowPolarity::ANY;
     }
     if (o.farTargets && r.chance(0.1)) {
       x[i] = ox + (int)r.in(-3 * (W / unit), 4 * (W / unit)) * unit;
